@@ -134,6 +134,10 @@ def _owner(node):
 
 _T = "svg_types"
 VARIANTS = [
+    Variant("area remembered per outline, whatever the fill rule",
+            [Edit(_T, "SVGShape.might_paint", "        # Only shapes with area paint\n",
+                  "        # Only shapes with area paint\n        memo = SVGShape.__dict__.get('_area_memo')\n        if memo is None:\n            memo = {}\n            SVGShape._area_memo = memo\n        key = shape.as_cmd_seq().d\n        if key in memo:\n            return memo[key] > 0\n        try:\n            memo[key] = svg_pathops.path_area(shape.as_cmd_seq(), fill_rule=shape.fill_rule)\n        except svg_pathops.pathops.PathOpsError:\n            return True\n        return memo[key] > 0\n")],
+            [("R-SITE.remove-unpainted", "remove_unpainted_shapes")], allow_analysis_error=True),
     Variant("reverted-fix F8: subpath judged with default paint", [Edit(_T, "SVGPath.remove_empty_subpaths", "if dataclasses.replace(self, d=subpath).might_paint()", "if SVGPath(d=subpath).might_paint()")],
             [("R-SITE.verdict-receiver", "remove_empty_subpaths")]),
     Variant("fill tested before stroke", [Edit(_T, "SVGShape.might_paint", "        if _visible(shape.stroke, shape.stroke_opacity) and shape.stroke_width != 0:\n            return True\n\n", ""),
